@@ -268,7 +268,7 @@ def run_case(case, schedule=None):
 
 # ------------------------------------------------------------------ generators shared by C07/C03/C04
 def gen_dcop(rng, nmax=5, p_cost=0.3, p_nary=0.25, dmax=3):
-    n = rng.randint(1, nmax)
+    n = min(nmax, rng.choice([1, 2, 2, 3, 3, 3, 4, 4, 4, 5, 5, 6]))
     vars_ = []
     for i in range(n):
         dsz = rng.randint(1, dmax) if rng.random() < 0.15 else rng.randint(2, dmax)
